@@ -26,7 +26,7 @@ ASSUMPTIONS = ["fewer than 2^64 requests per TokenManager lifetime (token distin
 def scripts(env):
     cfg = msglayer.default_cfg()
     out = [c["script"] for _, c in load_corpus("C02") if "script" in c]
-    out += G.c02_boundary()
+    out += G.c02_boundary() + G.c02_copied_messages()
     out += [G.c02_random(env.rng, cfg) for _ in range(env.scale(200, 6000))]
     out += [G.c02_sendfail(env.rng, cfg) for _ in range(env.scale(80, 2000))]
     return out
